@@ -187,6 +187,8 @@ def run(m, tier):
     results.append(regex_rules.anchor_rule(m, "C08.R7"))
     from rules import delim_rules
     results.append(delim_rules.delimiter_rule(m, "C08.R8"))
+    from rules import guard_rules
+    results.append(guard_rules.guarded_use_rule(m, "C08.R9"))
     expl = ("Decides the structural clauses of C08: the table of block constructs extracted from every "
             "BlockBase.match call site agrees with the Fortran 2003/2008 rules (opening/END pair, name and label "
             "comparison flags), every END statement class names its keyword and refuses a bare END where the standard "
